@@ -1254,6 +1254,8 @@ pub mod ss {
         lemma_live_update(g, st_of(b0), ix(id) as int, state);
         lemma_qc_set(g, b0, b1, id, build, state, pushq);
     }
+    pub proof fn lemma_lq_wacyc(g: Graph, bs: BuildStates)
+        requires lq(g, bs) ensures wacyc(g, st_of(bs)) { reveal(lq_x); }
     pub proof fn lemma_fresh_lq(g: Graph, bs: BuildStates)
         requires fresh(bs)
         ensures lq(g, bs), closed_u(g, st_of(bs)), closed_v(g, st_of(bs))
